@@ -175,18 +175,20 @@ type vio struct {
 	depth  uint8
 	writes []write
 	count  int64
+	stale  int // -1, or the stale status.availableReplicas the Deployment carried at this sync
 }
 
 type workerOut struct {
-	cands     [nShards][]cand
-	fair      []edge
-	syncs     int64
-	trans     int64
-	wrote     int64
-	outcomes  map[string]int64
-	vios      map[string]*vio
-	expanded  int64
-	writesMax int
+	cands      [nShards][]cand
+	fair       []edge
+	syncs      int64
+	staleSyncs int64
+	trans      int64
+	wrote      int64
+	outcomes   map[string]int64
+	vios       map[string]*vio
+	expanded   int64
+	writesMax  int
 }
 
 // better: is witness (depth,k) simpler than the recorded one?
@@ -210,15 +212,43 @@ func simpler(d1 uint8, k1 key, d2 uint8, k2 key) bool {
 }
 
 func (o *workerOut) violate(sig, detail string, at key, depth uint8, writes []write) {
+	o.violateStale(sig, detail, at, depth, writes, -1)
+}
+
+func (o *workerOut) violateStale(sig, detail string, at key, depth uint8, writes []write, stale int) {
 	v, ok := o.vios[sig]
 	if !ok {
-		o.vios[sig] = &vio{sig: sig, detail: detail, at: at, depth: depth, writes: writes, count: 1}
+		o.vios[sig] = &vio{sig: sig, detail: detail, at: at, depth: depth, writes: writes, count: 1, stale: stale}
 		return
 	}
 	v.count++
 	if simpler(depth, at, v.depth, v.at) {
-		v.detail, v.at, v.depth, v.writes = detail, at, depth, writes
+		v.detail, v.at, v.depth, v.writes, v.stale = detail, at, depth, writes, stale
 	}
+}
+
+// staleValues: the values of the Deployment's status.availableReplicas a sync may meet when pods changed their
+// availability since the previous sync wrote the status (the status is only refreshed at the end of a sync): one
+// below / one above the truth, none, and every pod that exists.
+func staleValues(s *state) []int {
+	avail, total := 0, 0
+	for i := range s.RS {
+		if s.RS[i].Present {
+			avail += s.RS[i].A
+			total += s.RS[i].N
+		}
+	}
+	var out []int
+	for _, v := range []int{avail - 1, avail + 1, 0, total} {
+		dup := v == avail || v < 0 || v > total
+		for _, x := range out {
+			dup = dup || x == v
+		}
+		if !dup {
+			out = append(out, v)
+		}
+	}
+	return out
 }
 
 // outcomeClass: what the sync did, as a set of (rs-kind, direction, call site).
@@ -294,12 +324,31 @@ func (e *explorer) expandChunk(w *world, chunk []key, depth uint8, o *workerOut,
 			o.writesMax = len(res.writes)
 		}
 		o.outcomes[outcomeClass(&s, &res)]++
+		baseSigs := map[string]bool{}
 		for _, f := range evalSync(&s, &res) {
+			baseSigs[f.sig()] = true
 			if f.Exempt {
 				o.outcomes["exempt:"+f.Monitor+"@"+f.Site+":no-active-old-rs"]++
 				continue
 			}
 			o.violate(f.sig(), f.Detail, k, depth, res.writes)
+		}
+		// the same sync with a Deployment status that is out of date (the safety clauses must hold all the same;
+		// the successors of the graph are those of the up-to-date status)
+		for _, sv := range staleValues(&s) {
+			w.staleAvail = sv
+			res2 := w.sync(&s)
+			w.staleAvail = -1
+			o.syncs++
+			o.staleSyncs++
+			for _, f := range evalSync(&s, &res2) {
+				// only what the out-of-date status adds: a finding this state shows with the recomputed status as well
+				// is reported (or exempted) there
+				if f.Exempt || f.Monitor == "HARNESS" || baseSigs[f.sig()] {
+					continue
+				}
+				o.violateStale(f.sig()+"/stale-deployment-status", fmt.Sprintf("%s\n(the Deployment's status.availableReplicas said %d at this sync: written by an earlier sync, pods changed since)", f.Detail, sv), k, depth, res2.writes, sv)
+			}
 		}
 		buf = buf[:0]
 		if res.panic == nil {
@@ -343,9 +392,10 @@ type replayCase struct {
 	Init  stateJSON `json:"init"`
 	Steps []string  `json:"steps,omitempty"`
 	// informational
-	Writes []write     `json:"writes_of_last_sync,omitempty"`
-	Final  *stateJSON  `json:"state_at_violation,omitempty"`
-	SCC    []stateJSON `json:"bottom_scc,omitempty"`
+	StaleAvail *int        `json:"stale_deployment_status_available_at_last_sync,omitempty"`
+	Writes     []write     `json:"writes_of_last_sync,omitempty"`
+	Final      *stateJSON  `json:"state_at_violation,omitempty"`
+	SCC        []stateJSON `json:"bottom_scc,omitempty"`
 }
 
 func mkTraceReplay(vis *visitedSet, at key, writes []write) replayCase {
@@ -382,6 +432,7 @@ func Run(r *lib.Report) {
 		"Old-reserve oracle only fires on writes that SHRINK an old ReplicaSet; over-partition and surge oracles only on writes that GROW the new ReplicaSet (creation counts as growth from 0).",
 		"The sync that handles a scaling event (an active ReplicaSet still annotated with the previous Deployment size) is not checked: the property scopes itself to unchanged size.",
 		"Before every sync the Deployment, ReplicaSets, clientset and listers are rebuilt from the canonical state (no informer lag); Deployment.status is recomputed, never carried over: the controller's ReplicaSet decisions do not read it when the max-replicas annotation is present (it always is).",
+		"Out-of-date Deployment status: besides the sync with the recomputed status every state gets up to four more REAL syncs in which the Deployment carries a status.availableReplicas / readyReplicas that an earlier sync could have written before pods changed (truth-1, truth+1, 0, every existing pod); the safety oracles must hold on them too (signature suffix /stale-deployment-status); their successors are not added to the graph (on a controller that never reads the status they equal the ones already there).",
 		"Thorough tier: at most scaleB scale events per history and only from initial states with settled status; initial states with status.replicas = spec.replicas +-1 only for small sizes (see coverage.bounds).",
 		"Degradation (available pod becomes unavailable) is explored without a budget, which is a superset of the budgeted histories; degrade, raisePartition and scale edges are not fair edges.",
 		"Convergence: in the graph restricted to syncs and healthy environment steps, every bottom SCC reachable in a slice whose partition is \"100%\" or an integer >= replicas must be the single state {new.spec=replicas, every old.spec=0}.",
@@ -487,6 +538,7 @@ groupLoop:
 			for _, o := range outs {
 				fairEdges = append(fairEdges, o.fair...)
 				total.syncs += o.syncs
+				total.staleSyncs += o.staleSyncs
 				total.trans += o.trans
 				total.wrote += o.wrote
 				total.expanded += o.expanded
@@ -574,6 +626,7 @@ groupLoop:
 	r.NontrivialN("sync-with-replicas-write", int(total.wrote))
 	r.Extra["bfs_depth"] = depth
 	r.Extra["syncs_with_write"] = total.wrote
+	r.Extra["syncs_with_an_out_of_date_deployment_status"] = total.staleSyncs
 	r.Extra["max_writes_in_one_sync"] = total.writesMax
 	for k, v := range total.outcomes {
 		for i := int64(0); i < v; i++ {
@@ -590,6 +643,10 @@ groupLoop:
 	for _, sig := range sigs {
 		v := total.vios[sig]
 		rc := mkTraceReplay(&e.vis, v.at, v.writes)
+		if v.stale >= 0 {
+			sv := v.stale
+			rc.StaleAvail = &sv
+		}
 		detail := fmt.Sprintf("%s\n(%d states of the graph show this signature; trace: init {%s} steps %v)", v.detail, v.count, stateStr(rc.Init), rc.Steps)
 		for i := int64(0); i < v.count; i++ {
 			r.Violate(sig, detail, rc)
@@ -774,15 +831,24 @@ func Replay(r *lib.Report, raw json.RawMessage) {
 			fmt.Printf("step %d %-28s -> {%s}\n", i+1, st, &s)
 			continue
 		}
+		if rc.StaleAvail != nil && i == len(rc.Steps)-1 {
+			w.staleAvail = *rc.StaleAvail
+			fmt.Printf("       (the Deployment carries status.availableReplicas=%d at this sync)\n", w.staleAvail)
+		}
 		res := w.sync(&s)
+		w.staleAvail = -1
+		sfx := ""
+		if rc.StaleAvail != nil && i == len(rc.Steps)-1 {
+			sfx = "/stale-deployment-status"
+		}
 		fmt.Printf("step %d REAL syncDeployment        writes=%s err=%q%s\n", i+1, lib.J(res.writes), res.errStr, map[bool]string{true: " (scaling event: not checked)", false: ""}[s.scalingPending()])
 		for _, f := range evalSync(&s, &res) {
 			if f.Exempt {
 				fmt.Printf("       (not demanded: %s - no old ReplicaSet is active)\n", f.Detail)
 				continue
 			}
-			fmt.Printf("       VIOLATION %s: %s\n", f.sig(), f.Detail)
-			r.Violate(f.sig(), f.Detail, rc)
+			fmt.Printf("       VIOLATION %s: %s\n", f.sig()+sfx, f.Detail)
+			r.Violate(f.sig()+sfx, f.Detail, rc)
 		}
 		s = res.after
 		fmt.Printf("       -> {%s}\n", &s)
